@@ -160,11 +160,30 @@ func (c12Prop) Gen(t *Tape, ph *PhaseCfg) Case {
 				o := cands[t.Draw(len(cands))]
 				// only options referenced by single-option elements: whether an option *group* (OPTIONS, -abc)
 				// can be satisfied by the environment alone is not claimed by the property
-				if !inFold(spec, o.decl) && !hasKind(spec, nOptions) {
+				// and only specs and command lines without `--`: behind a `--` the occurrence may have been read as a
+				// positional in world A (the property sets those aside: "an option occurrence cannot be re-read as a positional")
+				// (a `--` further right on the command line is fine: what stands before it cannot be a positional)
+				hasDash2 := spec.hasDD()
+				for i, tok := range s.toks {
+					if tok == "--" && i < o.from {
+						hasDash2 = true
+					}
+				}
+				if !inFold(spec, o.decl) && !hasKind(spec, nOptions) && !hasDash2 {
 					c.Mode = "required-satisfied"
 					forced = o.decl
 					c.Target = o.decl.Key()
-					toks := append(append([]string{}, s.toks[:o.from]...), s.toks[o.to:]...)
+					full := append([]string{}, s.toks...)
+					// sometimes with a `--` in front of the trailing block of positionals (to the right of the occurrence)
+					blockStart := len(full)
+					for blockStart > o.to && !strings.HasPrefix(full[blockStart-1], "-") {
+						blockStart--
+					}
+					if blockStart < len(full) && blockStart >= o.to && t.Draw(3) == 0 {
+						full = append(append(append([]string{}, full[:blockStart]...), "--"), full[blockStart:]...)
+						c.Argv = append([]string{"app"}, full...)
+					}
+					toks := append(append([]string{}, full[:o.from]...), full[o.to:]...)
 					c.ArgvB = append([]string{"app"}, toks...)
 					if t.Draw(2) == 0 {
 						// history: before that, the same object rejects the full command line preceded by an undeclared option
